@@ -91,12 +91,13 @@ type Event struct {
 }
 
 type RecvResult struct {
-	Ack      []byte
-	Success  bool
-	NilAck   bool
-	Panic    string // non-empty: the callback panicked (value + first stack lines)
-	Events   []Event
-	Written  bool
+	Ack       []byte
+	Success   bool
+	NilAck    bool
+	Panic     string // non-empty: the callback panicked (value + first stack lines)
+	PanicType string // Go type of the panic value (out-of-gas is recognised by type, not by text)
+	Events    []Event
+	Written   bool
 }
 
 func (r RecvResult) AckErr() string {
@@ -149,6 +150,7 @@ func RecvOn(stack porttypes.IBCModule, ctx sdk.Context, p Pkt) (res RecvResult) 
 					}
 				}
 				res.Panic = fmt.Sprintf("%v | %s", r, strings.Join(keep, " <- "))
+				res.PanicType = fmt.Sprintf("%T", r)
 			}
 		}()
 		ack := stack.OnRecvPacket(cctx, p.Packet(), nil)
